@@ -65,6 +65,7 @@ func init() {
 					c.add(o)
 				}
 			}
+			checkPublishKeyConsistency(c, p, R, "C04.R4")
 			c.Floor("C04.R1", "claim sites", c.Stats["claim_sites"], 1)
 			c.Floor("C04.R2", "handler invocation sites", c.Stats["handler_invocation_sites"], 7)
 			c.Assume = append(c.Assume, "sync/atomic CompareAndSwap semantics; each Subscribe call allocates a fresh registration (checked under C01.R5)", "Subscribe's typing guarantees the reflective fallback only sees func kinds with 1 or 2 inputs")
